@@ -1173,6 +1173,10 @@ func genC04(r *R, n int, tier string, out *Out) {
 			if r.chance(0.3) {
 				content = r.wsSlot() + r.jsonObject(3)
 			}
+			if r.chance(0.15) {
+				// raw carriage returns / CRLF / tabs inside string literals and keys and between tokens: the bytes of the file are parsed as they are
+				content = pickOf(r, []string{"{\"text\":\"one\rtwo\"}", "{\"a\rb\":1,\r\n\"c\":\"x\r\ny\"}", "{\r\"k\"\r:\r\"v\r\"\r}", "{\"t\":\"a\tb\",\"u\":\"\r\"}"})
+			}
 			if r.chance(0.2) {
 				content = content[:r.Intn(len(content)+1)]
 			}
@@ -1251,7 +1255,31 @@ func parseFileNow(path string) (po parseOut) {
 
 // ---------- C20: one injected syntax error at a known position ----------
 
+// a document whose error sits beyond line 65536 (and beyond 2^16 + a bit): judged on the implementation only
+func manyLinesCase(r *R) *Case {
+	f := &failer{pred: true}
+	for _, lines := range []int{65535, 65536, 70001, 131072 + 5} {
+		for _, isObj := range []bool{false, true} {
+			doc := "[1,\n2,\nnul]"
+			if isObj {
+				doc = "{\"a\":1,\n\"b\" 2}"
+			}
+			s := strings.Repeat("\n", lines) + doc
+			po := doParse(isObj, s)
+			want := lines + 3
+			if isObj {
+				want = lines + 2
+			}
+			if po.ok || po.line != want {
+				f.fail("an error on line %d of a long document is cited as line %d", want, po.line)
+			}
+		}
+	}
+	return &Case{Coq: "", Desc: map[string]any{"many_lines": true}, Pred: f.pred, PredMsg: f.msg, Nontrivial: true, Key: "many-lines", Tags: []string{"many-lines"}}
+}
+
 func genC20(r *R, n int, tier string, out *Out) {
+	out.emit(manyLinesCase(r))
 	var recent []c20doc
 	// between tokens: newlines, and blanks that are NOT newlines (a lone CR, VT, FF, NEL, LS, PS, other unicode.IsSpace characters) - only LF counts
 	nl := func() string {
@@ -1270,6 +1298,9 @@ func genC20(r *R, n int, tier string, out *Out) {
 				// code points whose low byte (or low 16 bits) is LF, CR or another structural character, and the Unicode line separators:
 				// none of them is a newline
 				return pickOf(r, []string{"\"\u010a\"", "\"\u200a\"", "\"\u4e0a\"", "\"a\u010ab\u010a\"", "\"\u010d\u010a\"", "\"\u2028\"", "\"\u2029\u0085\"", "\"\U0001000a\"", "\"\u0122\u015c\""})
+			}
+			if r.chance(0.04) {
+				return pickOf(r, []string{"\"x\ry\"", "\"\r\"", "\"a\r\nb\"", "\"\r\r\""}) // raw CR inside strings: not a line end
 			}
 			if r.chance(0.06) {
 				return pickOf(r, []string{"9223372036854775808", "18446744073709551616", "-9223372036854775809", "9223372036854775807", "123456789012345678901234567890"})
@@ -1330,10 +1361,16 @@ func genC20(r *R, n int, tier string, out *Out) {
 				strings.Repeat("y", 9000) + "\n" + strings.Repeat("\n", 10), strings.Repeat("ab\n", 40)})
 		}
 		// inject one error: replace a scalar by an invalid literal, or a structural token by a wrong character
-		kind := r.Intn(4)
+		kind := r.Intn(5)
 		var cands []int
 		for j, t := range toks {
 			switch kind {
+			case 4:
+				if t == "]" || t == "}" || t == "1" || t == "true" || t == `"s"` {
+					if j+1 < len(toks) { // (not the root's own closing bracket)
+						cands = append(cands, j)
+					}
+				}
 			case 0, 1:
 				if t == "1" || t == "true" || t == "null" || t == "2.5" || t == "-7" {
 					cands = append(cands, j)
@@ -1369,6 +1406,15 @@ func genC20(r *R, n int, tier string, out *Out) {
 					expectLine = 1 + strings.Count(text[:off+k], "\n")
 					_ = text
 				}
+			case 4:
+				// an unexpected character right after a complete value (often a nested container): the machine expects a delimiter
+				extra := pickOf(r, []string{"x", "2", "\"q\"", "[", "{", ":"})
+				gap := pickOf(r, []string{" ", "", "\n", " \n ", "\t"})
+				off := len(prefix) + len(strings.Join(toks[:j+1], "")) + len(gap)
+				toks[j] = toks[j] + gap + extra
+				tags = []string{"injected:extra-token-after-value"}
+				text := prefix + strings.Join(toks, "")
+				expectLine = 1 + strings.Count(text[:off], "\n")
 			case 2:
 				toks[j] = pickOf(r, []string{";", "=", "x"})
 				tags = []string{"injected:wrong-colon"}
